@@ -199,7 +199,7 @@ def gen_program(rnd, k, idx=0, name=None):
             extra = rnd.choice(roles)
             if extra not in out:
                 out.append(extra)
-        if guard and rnd.random() < k["p_multi_guard_provider"]:
+        if guard == "cond" and rnd.random() < k["p_multi_guard_provider"]:
             extra = rnd.choice(roles)
             if extra not in out:
                 out.append(extra)
@@ -232,10 +232,10 @@ def gen_program(rnd, k, idx=0, name=None):
         if rnd.random() < k["p_cond"]:
             t.setdefault("cond", [])
             for _ in range(rnd.randint(1, 2)):
-                add_unique(t["cond"], fresh("g_", "cond", guard=True))
+                add_unique(t["cond"], fresh("g_", "cond", guard="cond"))
         if rnd.random() < k["p_unless"]:
             t.setdefault("unless", [])
-            add_unique(t["unless"], fresh("u_", "unless", guard=True))
+            add_unique(t["unless"], fresh("u_", "unless", guard="unless"))
         for g, pre in (("before", "b_"), ("on", "o_"), ("after", "a_")):
             if rnd.random() < k["p_action"]:
                 t.setdefault(g, [])
